@@ -80,6 +80,9 @@ Definition reduceS (es : list pS) (startNr : option Z) (timescale periodStartS p
 
 (** ** splitPeriod *)
 
+(** the typed error errPeriodDuration (commit e7eedfb: the handler answers it with 400) *)
+Definition rejectMsg : string := "period duration not a multiple of segment duration".
+
 Inductive mpdType := MNumber | MTimelineTime | MTimelineNr.
 
 (** What splitPeriod reads of an AdaptationSet of the single-period MPD. *)
@@ -147,7 +150,7 @@ Fixpoint widenRange (periodDur : Z) (ases : list asIn) (k0 k1 : Z) : res (Z * Z)
     end
   end.
 
-Definition splitAS (mode : mpdType) (cont : bool) (snr : Z) (pNr periodDur : Z) (a : asIn) : res asOut :=
+Definition splitAS (ng : bool) (mode : mpdType) (cont : bool) (snr : Z) (pNr periodDur : Z) (a : asIn) : res asOut :=
   let timeScale := match a_ts a with Some t => t | None => 1 end in
   let pto := u64 (pNr * periodDur * timeScale) in
   match templateType mode a with
@@ -156,6 +159,9 @@ Definition splitAS (mode : mpdType) (cont : bool) (snr : Z) (pNr periodDur : Z) 
     | None => Panic "splitPeriod: nil pointer dereference"
     | Some segDur =>
       if segDur =? 0 then Panic "splitPeriod: integer divide by zero" else
+      (* repair "guard per adaptation set": errPeriodDuration when the period is no whole number of
+         segments of THIS template ([ng]: the tree contains it, read from the source) *)
+      if ng && (0 <? segDur) && negb (Z.rem (periodDur * timeScale) segDur =? 0) then Err rejectMsg else
       Ok {| o_pto := pto; o_startNr := Some (u32 (Z.quot (pNr * periodDur * timeScale) segDur + snr));
             o_tl := a_tl a; o_cont := cont |}
     end
@@ -178,16 +184,13 @@ Definition splitAS (mode : mpdType) (cont : bool) (snr : Z) (pNr periodDur : Z) 
 (** In the $Number$ branch the clone keeps whatever SegmentTimeline the input had (none, after
     adjustAdaptationSetForSegmentNumber). *)
 
-Definition periodOf (mode : mpdType) (cont : bool) (snr : Z) (periodDur : Z) (ases : list asIn) (pNr : Z) : res period :=
-  do out <- mapM (splitAS mode cont snr pNr periodDur) ases;
+Definition periodOf (ng : bool) (mode : mpdType) (cont : bool) (snr : Z) (periodDur : Z) (ases : list asIn) (pNr : Z) : res period :=
+  do out <- mapM (splitAS ng mode cont snr pNr periodDur) ases;
   Ok {| pd_nr := pNr; pd_start := pNr * periodDur; pd_as := out |}.
 
 Definition rangeOf (widen : bool) (mode : mpdType) (periodDur : Z) (ases : list asIn) (k0 k1 : Z) : res (Z * Z) :=
   if widen && negb (match mode with MNumber => true | _ => false end)
   then widenRange periodDur ases k0 k1 else Ok (k0, k1).
-
-(** the typed error errPeriodDuration (commit e7eedfb: the handler answers it with 400) *)
-Definition rejectMsg : string := "period duration not a multiple of segment duration".
 
 (** [splitPeriod] for [cfg.PeriodsPerHour = &pph]; [astMS = cfg.StartTimeS*1000], [snr =
     cfg.getStartNr()]; [startTimeMS]/[nowMS] are the wrapTimes fields.  [widen]: the tree contains
@@ -195,7 +198,7 @@ Definition rejectMsg : string := "period duration not a multiple of segment dura
     harness; [false] = the code before that repair).  Periods are counted from
     availabilityStartTime (repository commit 961c9dc), the $Number$ startNumber of a period
     includes the configured start number (bde286d). *)
-Definition splitPeriod (widen : bool) (pph segDurMS : Z) (mode : mpdType) (cont : bool) (astMS snr : Z) (startTimeMS nowMS : Z)
+Definition splitPeriod (ng widen : bool) (pph segDurMS : Z) (mode : mpdType) (cont : bool) (astMS snr : Z) (startTimeMS nowMS : Z)
            (ases : list asIn) : res (list period) :=
   if pph =? 0 then Panic "splitPeriod: integer divide by zero" else
   let periodDur := Z.quot 3600 pph in
@@ -209,7 +212,7 @@ Definition splitPeriod (widen : bool) (pph segDurMS : Z) (mode : mpdType) (cont 
   let endPeriodNr := snd range in
   (* make([]*m.Period, 0, nrPeriods) *)
   if endPeriodNr - startPeriodNr + 1 <? 0 then Panic "splitPeriod: makeslice: cap out of range" else
-  mapM (periodOf mode cont snr periodDur ases) (seqZ startPeriodNr (Z.to_nat (endPeriodNr - startPeriodNr + 1))).
+  mapM (periodOf ng mode cont snr periodDur ases) (seqZ startPeriodNr (Z.to_nat (endPeriodNr - startPeriodNr + 1))).
 
 (** lastPeriodStartTime: availabilityStartTime + start of the last period, in seconds. *)
 Definition lastPeriodStartTime (astS : Z) (ps : list period) : res Z :=
@@ -224,11 +227,11 @@ Definition pphRangeMsg : string := "periods per hour must be in the range 1-3600
     of periods-per-hour (commit 9fbd9f7; answered 400), then splitPeriod with the wrap times, and
     the publishTime that replaces the single-period one in $Number$ mode ([None]: publishTime
     left as computed before).  [startNr c] is cfg.getStartNr(). *)
-Definition livePeriods (widen : bool) (loopMS : Z) (c : tcfg) (nowMS tsbdMS : Z) (pph segDurMS : Z) (mode : mpdType)
+Definition livePeriods (ng widen : bool) (loopMS : Z) (c : tcfg) (nowMS tsbdMS : Z) (pph segDurMS : Z) (mode : mpdType)
            (cont : bool) (ases : list asIn) : res (list period * option Z) :=
   if (pph <=? 0) || (3600 <? pph) then Err pphRangeMsg else
   let wt := calcWrapTimes loopMS c nowMS tsbdMS in
-  do ps <- splitPeriod widen pph segDurMS mode cont (startS c * 1000) (startNr c) (startTimeMS wt) (wnowMS wt) ases;
+  do ps <- splitPeriod ng widen pph segDurMS mode cont (startS c * 1000) (startNr c) (startTimeMS wt) (wnowMS wt) ases;
   match mode with
   | MNumber => do pt <- lastPeriodStartTime (startS c) ps; Ok (ps, Some pt)
   | _ => Ok (ps, None)
@@ -242,9 +245,9 @@ Definition liveEndMS (nowMS : Z) (stopS : option Z) : Z :=
   | Some s => if s * 1000 <? nowMS then s * 1000 else nowMS
   | None => nowMS
   end.
-Definition livePeriodsStop (widen : bool) (loopMS : Z) (c : tcfg) (nowMS : Z) (stopS : option Z) (tsbdMS : Z)
+Definition livePeriodsStop (ng widen : bool) (loopMS : Z) (c : tcfg) (nowMS : Z) (stopS : option Z) (tsbdMS : Z)
            (pph segDurMS : Z) (mode : mpdType) (cont : bool) (ases : list asIn) : res (list period * option Z) :=
-  livePeriods widen loopMS c (liveEndMS nowMS stopS) tsbdMS pph segDurMS mode cont ases.
+  livePeriods ng widen loopMS c (liveEndMS nowMS stopS) tsbdMS pph segDurMS mode cont ases.
 
 (** ** Specification side *)
 
